@@ -119,7 +119,8 @@ def leaf(gen, tag):
     kind = c.choice(tag + ".kind", gen.leaf_kinds)
     if kind == "sym_int":
         return c.int(tag, -4, 4)
-    return {"true": True, "false": False, "float": 2.5, "str": "ab", "zero": 0, "seven": 7, "neg": -2, "three": 3}[kind]
+    return {"true": True, "false": False, "float": 2.5, "str": "ab", "zero": 0, "seven": 7, "neg": -2, "three": 3,
+            "one": 1, "onef": 1.0, "zerof": 0.0, "negzerof": -0.0, "negone": -1, "four": 4, "fourf": 4.0}[kind]
 
 
 INT_OPS = [ast.Add, ast.Sub, ast.Mult, ast.FloorDiv, ast.Mod]     # closed over the integers: z3 Int arithmetic models them exactly
@@ -206,6 +207,13 @@ def jobs(tier):
          "funcs": ["sum", "round", "max", "pi"], "arity": 1, "kw_names": ("start", "ndigits")},
         {"depth": 2, "pathways": [P.GLYCOLYSIS], "classes": [ast.Call], "inner": [C, ast.Call], "leaf_kinds": ["seven", "neg"],
          "funcs": ["abs", "max", "pow"], "arity": 2, "keywords": False},
+    ]
+    # equal-but-not-identical operands (1 / 1.0 / True, 0 / 0.0 / -0.0) reaching the same function twice in one expression
+    j += [
+        {"depth": 2, "pathways": [P.GLYCOLYSIS], "classes": [ast.Tuple], "inner": [ast.Call], "leaf_kinds": ["four", "fourf", "one", "true", "onef"],
+         "funcs": ["factorial", "abs", "sqrt"], "arity": 2, "keywords": False},
+        {"depth": 2, "pathways": [P.GLYCOLYSIS], "classes": [ast.Tuple], "inner": [ast.Call], "leaf_kinds": ["zero", "negzerof", "negone", "four"],
+         "funcs": ["atan2", "gcd"], "arity": 2, "keywords": False},
     ]
     if tier == "thorough":
         j += [
